@@ -131,6 +131,15 @@ func (w *c19World) compareAll() {
 		c.Violate("Routes() of the facade-built router differs from the plain one", map[string]any{"program": w.ops, "facade": ra, "plain": rb})
 		return
 	}
+	// the server-wide answers: OPTIONS * (Allow set), TRACE to some path, a request nothing matches
+	for _, q := range []mon.Req{{Method: "OPTIONS", Path: "*"}, {Method: "TRACE", Path: "/anything/7"}, {Method: "GET", Path: "/nothing/matches/this"}} {
+		oa, ob := w.observe(w.a, q), w.observe(w.b, q)
+		c.Eval()
+		if oa != ob {
+			c.Violate("a server-wide answer of the facade-built router differs from the plain one", map[string]any{"program": w.ops, "request": q.String(), "facade": oa, "plain": ob})
+			return
+		}
+	}
 	for i, pp := range w.parsed {
 		path, _ := Witness(pp, i)
 		for _, m := range []string{"GET", "POST", "HEAD", "OPTIONS", "BOGUS"} {
@@ -151,14 +160,23 @@ func runC19(c *Ctx) {
 	w := &c19World{c: c, envA: mon.NewEnv(), envB: mon.NewEnv(), live: map[string]map[string]bool{}, tag: map[*mon.Hnd]int{}}
 	w.envA.RecordMW, w.envB.RecordMW = false, false
 	domain := ref.Pick(r, []string{"", "https://x.io/"})
-	opts := func() []mux.Option {
+	withTrace := r.Chance(1, 3)
+	opts := func(env *mon.Env) []mux.Option {
 		o := icOptions(ics)
 		if domain != "" {
 			o = append(o, mux.WithURLDomain(domain))
 		}
+		if withTrace {
+			th := env.NewHnd(mon.KTrace, "")
+			w.tag[th] = -1
+			o = append(o, mux.WithTrace(th))
+		}
 		return o
 	}
-	w.a, w.b = w.envA.NewRouter("r", opts()...), w.envB.NewRouter("r", opts()...)
+	w.a, w.b = w.envA.NewRouter("r", opts(w.envA)...), w.envB.NewRouter("r", opts(w.envB)...)
+	if withTrace {
+		c.Class("facade_program_on_trace_router")
+	}
 	w.pool = gen.SimpleFor(ics).Table(r, r.Range(6, 16))
 	w.parsed = parseAll(w.pool, ics.Funcs)
 
